@@ -1,4 +1,4 @@
-//go:build c11
+//go:build c11 || c08 || c10
 
 package main
 
